@@ -158,4 +158,27 @@ MUTANTS = [
             return float(obj)""", """        if isinstance(obj, np.floating):
             return float(str(obj))""", ["C02"]),
  ("c03-gz-reader-latin1", "biom/util.py", """            return codecs.getreader('utf-8')(gzip_open(fp, mode))""", """            return codecs.getreader('latin-1')(gzip_open(fp, mode))""", ["C03"]),
+ ("c03-isfloat-accepts-empty", T, """            try:
+                float(value)
+                return True
+            except ValueError:
+                return False
+
+        if not isinstance(lines, list):""", """            if value == '':
+                return True
+            try:
+                float(value)
+                return True
+            except ValueError:
+                return False
+
+        if not isinstance(lines, list):""", ["C03"]),
+ ("c03-fields-off-by-one", T, """                    values = list(map(dtype, fields[1:-1]))""", """                    values = list(map(dtype, fields[2:-1]))""", ["C03"]),
+ ("c03-values-percent-g", T, """            str_obs_vals = delim.join(map(str, self._to_dense(obs_values)))""", """            str_obs_vals = delim.join('%g' % v for v in self._to_dense(obs_values))""", ["C03"]),
+ ("c03-rsplit-to-split", T, """        last_values = [line.rsplit(delim, 1)[-1].strip()""", """        last_values = [line.split(delim, 1)[-1].strip()""", ["C03"]),
+ ("c03-header-ids-stripped", T, """            header = line.strip().split(delim)[1:]""", """            header = [h.strip() for h in line.strip().split(delim)[1:]]
+            header = [h.lstrip('0') or h for h in header]""", ["C03"]),
+ ("c03-single-sample-md-guess", T, """        if last_column_is_numeric or data_start == 0:""", """        if (last_column_is_numeric and len(header) > 1) or data_start == 0:""", ["C03"]),
+ ("c03-convert-formatter-comma", "biom/cli/table_converter.py", """    'sc_separated': lambda x: '; '.join(x),""", """    'sc_separated': lambda x: ', '.join(x),""", ["C03"]),
+ ("c03-zero-skip-threshold", T, """                if values[column_number] != dtype(0):""", """                if abs(values[column_number]) > 1e-300:""", ["C03"]),
 ]
